@@ -5,7 +5,7 @@
 //!        12 MinidumpMemoryInfoList (stream bytes)   2 MinidumpLinuxMaps (maps text)
 //!        3 MinidumpUnloadedModuleList     4 FUNC records   41 STACK CFI INIT records
 //!        5 line records of one FUNC    13-17 Memory64 / Unified* views    18 MinidumpModuleList::read (stream bytes)
-//!        42/43 STACK WIN frame-data / FPO tables
+//!        19 MinidumpUnloadedModuleList::read (stream bytes)    42/43 STACK WIN frame-data / FPO tables
 use minidump::*;
 use minidump_common::traits::IntoRangeMapSafe;
 use range_map::Range;
@@ -210,6 +210,35 @@ fn run(line: &str) -> String {
                 gets.push(list.module_at_address(q).map(|md| vec![md.raw.checksum.to_string()]).unwrap_or_default());
             }
         }
+        19 => {
+            // MinidumpUnloadedModuleList::read from MINIDUMP_UNLOADED_MODULE_LIST bytes: 12-byte header (size_of_header,
+            // size_of_entry, number_of_entries), then 24-byte MINIDUMP_UNLOADED_MODULEs.  The entry's position in the
+            // stream rides in the checksum; every name is the string at rva 0 of `all`.  One bad raw module makes the
+            // whole read return Err: answer ERR;;
+            use minidump::Module;
+            let all: Vec<u8> = vec![4, 0, 0, 0, b'm', 0, b'x', 0];
+            let mut bytes: Vec<u8> = vec![];
+            bytes.extend_from_slice(&12u32.to_le_bytes());
+            bytes.extend_from_slice(&24u32.to_le_bytes());
+            bytes.extend_from_slice(&(ents.len() as u32).to_le_bytes());
+            for (i, &(b, s, _)) in ents.iter().enumerate() {
+                bytes.extend_from_slice(&b.to_le_bytes()); // base_of_image
+                bytes.extend_from_slice(&(s as u32).to_le_bytes()); // size_of_image
+                bytes.extend_from_slice(&(i as u32).to_le_bytes()); // checksum (tag)
+                bytes.extend_from_slice(&0u32.to_le_bytes()); // time_date_stamp
+                bytes.extend_from_slice(&0u32.to_le_bytes()); // module_name_rva
+            }
+            let list = match MinidumpUnloadedModuleList::read(&bytes, &all, scroll::LE, None) {
+                Ok(l) => l,
+                Err(_) => return "ERR;;".to_string(),
+            };
+            for md in list.by_addr() {
+                table.push(format!("{}-{}:{}", md.base_address(), md.base_address() + md.size() - 1, md.raw.checksum));
+            }
+            for &q in &qs {
+                gets.push(list.modules_at_address(q).map(|md| md.raw.checksum.to_string()).collect());
+            }
+        }
         13 | 14 | 15 => {
             // 13: MinidumpMemory64List; 14: UnifiedMemoryList::Memory; 15: UnifiedMemoryList::Memory64
             if kind == 14 {
@@ -310,7 +339,7 @@ fn run(line: &str) -> String {
         }
         42 | 43 => {
             // STACK WIN frame-data (42) / FPO (43) tables; the tag rides in the parameter_size field.
-            // No model prediction in C08 (the overlap repair is modelled under C07): oracle only.
+            // Predicted by C08/WinModel.v; oracle_win judges independently.
             let mut text = String::from("MODULE windows x86 ABCD1234 m\n");
             for &(b, s, v) in &ents {
                 if kind == 42 {
